@@ -37,7 +37,22 @@ WRONG = {"int-for-float": 1, "str": "5.0", "bool": True, "list": [1.0, 2.0], "ta
 
 
 def allowed_types(kind, key):
-    return KINDS[kind]._cparams["params"][key]["typ"] if kind != "LinReg" else None
+    """the DOCUMENTED value types of a key (frozen here, not read from the implementation's own table: a loader that widens its table is a change of
+    behaviour).  Numbers may be TOML integers or floats, except the efficiency (float or table); tables where the kind takes a table; a list for the
+    per-input resistances of a PMux; booleans for 'loss'."""
+    if kind == "LinReg":
+        return None
+    if key not in KINDS[kind]._cparams["params"]:
+        raise KeyError(key)
+    if key == "loss":
+        return [bool]
+    if key == "eff":
+        return [float, dict]
+    if key == "ig" or (key == "vdrop" and kind in ("VLoss", "Rectifier")):
+        return [int, float, dict]
+    if key == "rs" and kind in ("PMux", "Rectifier"):   # the Rectifier advertises float | list as well (see KF-07)
+        return [int, float, list]
+    return [int, float]
 
 
 def workdir():
